@@ -416,7 +416,7 @@ func keyExchange(klen int, ida, idb []byte, pri *PrivateKey, pub *PublicKey, rpr
 		return
 	}
 	// IsOnCurve reduces its arguments mod p: coordinates must be field elements in [0, p-1]
-	if p := curve.Params().P; rpub.X.Cmp(p) >= 0 || rpub.Y.Cmp(p) >= 0 {
+	if p := curve.Params().P; rpub.X.Sign() < 0 || rpub.Y.Sign() < 0 || rpub.X.Cmp(p) >= 0 || rpub.Y.Cmp(p) >= 0 {
 		err = errors.New("Ra coordinates are not field elements")
 		return
 	}
